@@ -8,7 +8,8 @@ THEOREMS = ["C16_flush", "C16_consumable", "C16_header", "C16_model_header", "C1
             "C16_trace_is_emits", "C16_level_spec", "C16_plain_nest_spec", "C16_plain_nest",
             "C16_intersect_rows_b", "C16_intersect_yields", "C16_eager_nest_spec", "C16_eager_nest",
             "C16_model_meets_spec_partial",
-            "C16_pop_stamp_discipline", "C16_pop_loop_facts", "C16_pop_level_core"]
+            "C16_pop_stamp_discipline", "C16_pop_loop_facts", "C16_pop_level_core",
+            "C16_retry_endcollect", "C16_nest_spec", "C16_nest", "C16_model_meets_spec_populate"]
 COQ_IMPORTS = "From FT Require Import Model.Base Model.Obs Model.C16Metrics Model.C16Nest Model.C16Check."
 CHECK_VO = ["Model/C16Check.v"]
 CHECKER = "c16_checker"
@@ -205,7 +206,7 @@ def _mem_rows(rows, name_ix):
     return out
 
 
-def _one_run(case, n, consumable, tmpdir, tag):
+def _one_run(case, n, consumable, tmpdir, tag, retry=False):
     from fibertree import Metrics
     D = len(case["levels"])
     levels = case["levels"]
@@ -266,12 +267,23 @@ def _one_run(case, n, consumable, tmpdir, tag):
                 Metrics.trace(rank_name(r), type_name(kind, label), consumable=True)
         nest(0, [t.getRoot() for t in ins], Z.getRoot() if Z is not None else None, [])
         mems = None
-        if consumable:
+        ended = False
+        if retry:
+            # legal public use: endCollect() refuses to finish while a consumable trace holds rows
+            # (AssertionError, cf. test_consume_trace_missing); consume them and call it again
+            try:
+                Metrics.endCollect()
+                ended = True
+                mems = [[] for _ in case["keys"]]
+            except AssertionError:
+                pass
+        if consumable and not ended:
             mems = [_mem_rows(Metrics.consumeTrace(rank_name(r), type_name(kind, label)), name_ix)
                     for r, kind, label in case["keys"]]
     finally:
         try:
-            Metrics.endCollect()
+            if Metrics.isCollecting():
+                Metrics.endCollect()
         finally:
             Metrics.setNumCachedUses(1000)
     files = [_parse("%s-%s-%s.csv" % (prefix, rank_name(r), type_name(kind, label)), name_ix)
@@ -292,7 +304,8 @@ def run_impl(case):
                 runs.append(files)
                 zs = z if zs is None else zs
             f2, m2, _ = _one_run(case, case["thresholds"][0], True, tmpdir, "rc")
-        return [runs, [f2, m2], zs]
+            f3, m3, _ = _one_run(case, max(case["thresholds"]), True, tmpdir, "rr", retry=True)
+        return [runs, [f2, m2, f3, m3], zs]
     except AssertionError:
         return [-1, 1]
     except IndexError:
